@@ -20,7 +20,7 @@ from dsim.actors import pyval
 ID = 'C19'
 LEVEL = 'exploration'
 CLASSES = [('assign', 5), ('equality', 5)]
-TIERS = {'quick': {'runs': 3000, 'chunk': 50}}
+TIERS = {'quick': {'chunk': 50}}
 RULE = ('seeded DOM histories: class assign = a tree plus 10-40 assignments '
         'over all 28 (section kind, attribute) pairs with ~40% wrong-type / '
         'wrong-choice values and constructor / add_* calls with unknown '
